@@ -13,6 +13,7 @@ STATS = {'z3-api': [0, 0.0], 'z3-4.8.12': [0, 0.0], 'cvc5-1.0.3': [0, 0.0],
 API_TIMEOUT_MS = int(os.environ.get('PYVC_Z3_MS', '10000'))
 EXT_TIMEOUT_S = int(os.environ.get('PYVC_EXT_S', '30'))
 FEAS_TIMEOUT_MS = 1500
+FIRST_TRY_MS = int(os.environ.get('PYVC_FIRST_MS', '2500'))
 
 
 class SolverDisagreement(Exception):
@@ -70,7 +71,9 @@ def decide(assertions, want_model=True, ext=True):
     """-> (verdict, model_or_None, backend, seconds); verdict in unsat/sat/unknown"""
     t0 = time.time()
     s = z3.Solver()
-    s.set('timeout', API_TIMEOUT_MS)
+    # first a short attempt (almost every obligation takes milliseconds); the other solvers are tried
+    # before z3 gets its full budget, because cvc5 decides most of z3's slow quantified queries at once
+    s.set('timeout', min(FIRST_TRY_MS, API_TIMEOUT_MS) if ext else API_TIMEOUT_MS)
     s.add(*assertions)
     r = s.check()
     dt = time.time() - t0
@@ -103,5 +106,21 @@ def decide(assertions, want_model=True, ext=True):
     dt = time.time() - t0
     if vs:
         v = vs.pop()
+        if v == 'sat' and want_model:
+            # a counter-model is wanted: give z3 its full budget to produce one
+            s.set('timeout', API_TIMEOUT_MS)
+            if s.check() == z3.sat:
+                return 'sat', s.model(), 'z3-api', time.time() - t0
         return v, None, next(iter(verdicts)), dt
+    # last resort: z3 with its full budget
+    t1 = time.time()
+    s.set('timeout', API_TIMEOUT_MS)
+    r = s.check()
+    STATS['z3-api'][0] += 1
+    STATS['z3-api'][1] += time.time() - t1
+    dt = time.time() - t0
+    if r == z3.unsat:
+        return 'unsat', None, 'z3-api', dt
+    if r == z3.sat:
+        return 'sat', (s.model() if want_model else None), 'z3-api', dt
     return 'unknown', None, 'all', dt
